@@ -37,6 +37,13 @@ func (x *Exec) execBlock(st *State, stmts []ast.Stmt) []outcome {
 	var outs []outcome
 	for si, s := range stmts {
 		var next []*State
+		if lab, ok := s.(*ast.LabeledStmt); ok && gotoTargetIn(lab.Label.Name, stmts[si:]) {
+			// `L: ...; goto L`: the rest of the block is the body of a loop whose back edge is the goto
+			for _, c := range cur {
+				outs = append(outs, x.gotoLoop(c, lab, stmts[si+1:])...)
+			}
+			return outs
+		}
 		for _, c := range cur {
 			for _, o := range x.execStmt(c, s) {
 				if o.kind == oNormal {
@@ -662,6 +669,14 @@ type loopSpec struct {
 	post  func(st *State) []outcome
 	label string
 	counter types.Object
+	exec  func(st *State) []outcome // body execution override (label/goto loops)
+}
+
+func (x *Exec) loopBody(st *State, ls *loopSpec) []outcome {
+	if ls.exec != nil {
+		return ls.exec(st)
+	}
+	return x.execBlock(st, ls.body.List)
 }
 
 // autoInvariant: `lo <= i && i <= hi` for `for i := lo; i < hi; i++` when the body does not assign i
@@ -974,7 +989,7 @@ func (x *Exec) unrollLoop(st *State, ls *loopSpec) []outcome {
 				ls.pre(s)
 			}
 			var conts []*State
-			for _, o := range x.execBlock(s, ls.body.List) {
+			for _, o := range x.loopBody(s, ls) {
 				switch {
 				case o.kind == oNormal || (o.kind == oContinue && (o.label == "" || o.label == ls.label)):
 					conts = append(conts, o.st)
@@ -1316,7 +1331,7 @@ func (x *Exec) invariantLoop(st *State, ls *loopSpec, inv []Clause) []outcome {
 				if ls.pre != nil {
 					ls.pre(it)
 				}
-				for _, o := range x.execBlock(it, ls.body.List) {
+				for _, o := range x.loopBody(it, ls) {
 					switch {
 					case o.kind == oNormal || (o.kind == oContinue && (o.label == "" || o.label == ls.label)):
 						if fr.c != nil {
@@ -1393,7 +1408,7 @@ func (x *Exec) dryRunHavoc(h *State, ls *loopSpec) {
 		ls.pre(d)
 	}
 	start := d.fork()
-	outs := x.execBlock(d, ls.body.List)
+	outs := x.loopBody(d, ls)
 	e := x.env(h)
 	changedMem := map[int]bool{}
 	for _, o := range outs {
@@ -1492,6 +1507,62 @@ func (x *Exec) gotoLabel(st *State, ls *ast.LabeledStmt, stmts []ast.Stmt, targe
 	return nil
 }
 
+func gotoTargetIn(label string, stmts []ast.Stmt) bool {
+	found := false
+	for _, s := range stmts {
+		ast.Inspect(s, func(n ast.Node) bool {
+			if b, ok := n.(*ast.BranchStmt); ok && b.Tok == token.GOTO && b.Label != nil && b.Label.Name == label {
+				found = true
+			}
+			if _, ok := n.(*ast.FuncLit); ok {
+				return false
+			}
+			return true
+		})
+	}
+	return found
+}
+
+// gotoLoop: a label followed by statements that jump back to it. The loop id is the label name
+// (`loop step1 invariant ...`). Reaching the end of the block leaves the loop; `goto L` continues it.
+func (x *Exec) gotoLoop(st *State, lab *ast.LabeledStmt, rest []ast.Stmt) []outcome {
+	body := &ast.BlockStmt{Lbrace: lab.Pos(), List: append([]ast.Stmt{lab.Stmt}, rest...)}
+	name := lab.Label.Name
+	ls := &loopSpec{id: name, stmt: lab, body: body, label: "goto:" + name}
+	ls.exec = func(s *State) []outcome {
+		var res []outcome
+		for _, o := range x.execBlock(s, body.List) {
+			switch {
+			case o.kind == oGoto && o.label == name:
+				res = append(res, outcome{kind: oContinue, label: ls.label, st: o.st})
+			case o.kind == oNormal:
+				res = append(res, outcome{kind: oBreak, label: ls.label, st: o.st})
+			default:
+				res = append(res, o)
+			}
+		}
+		return res
+	}
+	fr := x.top()
+	if fr.c != nil && fr.c.Peel[name] {
+		// first iteration executed separately (its inputs may have another shape than those of the
+		// later iterations); the loop proper starts at the first back edge
+		var outs []outcome
+		for _, o := range ls.exec(st) {
+			switch {
+			case o.kind == oContinue && o.label == ls.label:
+				outs = append(outs, x.runLoop(o.st, ls)...)
+			case o.kind == oBreak && o.label == ls.label:
+				outs = append(outs, outcome{kind: oNormal, st: o.st})
+			default:
+				outs = append(outs, o)
+			}
+		}
+		return outs
+	}
+	return x.runLoop(st, ls)
+}
+
 // pointerConfigs: the assignments of allocations to re-assigned pointer variables that are reachable
 // at the loop head (found by iterating the body's effect on those variables).
 func (x *Exec) pointerConfigs(h *State, ls *loopSpec, direct map[types.Object]bool) []map[types.Object]Value {
@@ -1523,7 +1594,7 @@ func (x *Exec) pointerConfigs(h *State, ls *loopSpec, direct map[types.Object]bo
 			ls.pre(d)
 		}
 		fresh := map[types.Object]bool{}
-		for _, o := range x.execBlock(d, ls.body.List) {
+		for _, o := range x.loopBody(d, ls) {
 			if o.kind != oNormal && o.kind != oContinue {
 				continue
 			}
@@ -1594,7 +1665,7 @@ func (x *Exec) pointerConfigs(h *State, ls *loopSpec, direct map[types.Object]bo
 			ls.pre(d)
 		}
 		var next map[types.Object]Value
-		for _, o := range x.execBlock(d, ls.body.List) {
+		for _, o := range x.loopBody(d, ls) {
 			if o.kind != oNormal && o.kind != oContinue {
 				continue
 			}
